@@ -248,8 +248,10 @@ func worldOf(st reflect.Type) (structs []reflect.Type, ifaces []reflect.Type) {
 			}
 			seenI[t] = true
 			if t.NumMethod() == 0 {
-				// interface{}: the generator only puts *VLeaf records there
-				visitS(reflect.TypeOf(VLeaf{}))
+				// interface{}: every registered struct can be stored there
+				for i := range togoRoots {
+					visitS(reflect.TypeOf(togoRoots[i].mk()).Elem())
+				}
 				return
 			}
 			ifaces = append(ifaces, t)
@@ -732,6 +734,9 @@ func togoOnce(mode string, r *togoRoot, term []string) (ans string) {
 		h, isHash := rec.(*zygo.SexpHash)
 		if !isHash || !h.ShadowSet || h.GoShadowStruct == nil {
 			return "no-shadow"
+		}
+		if _, known := togoRegOfStruct[reflect.TypeOf(h.GoShadowStruct).Elem()]; !known {
+			return "foreign-shadow"
 		}
 		return canonGo(reflect.ValueOf(h.GoShadowStruct))
 	case "echo":
